@@ -253,4 +253,18 @@ META = {
         "level_note": "trusted: metadata oracle in vf/mon/storagemd.py; rechunker driven with its default progress bar",
         "technique": "differential runtime oracle (transformed vs source data) + metadata/file consistency monitor + source-tree hash",
     },
+    "C15": {
+        "level_text": (
+            "get_array / get_df / make for 2..8 runs with 1..8 worker threads on one shared context is executed "
+            "under OS schedules amplified by a 1 us interpreter switch interval, under the default interval, and "
+            "under seeded yield injection at statement boundaries of strax/context.py and multi_run "
+            "(sys.monitoring LINE events), with cold and warm plugin caches, with and without storage, for a "
+            "single target and for two same-kind targets, optionally with one failing run (with / without "
+            "ignore_errors). The result must equal sequential single-run calls on a fresh context concatenated "
+            "in run-id order with the run id attached; no other exception may surface; afterwards the registry "
+            "holds no temporary plugin and the keys equal a fresh context's."
+        ),
+        "level_note": "trusted: sequential fresh-context reference; schedules are amplified, not enumerated (no control over pre-emption inside C-level operations)",
+        "technique": "stress-schedule runtime monitoring (1 us switch interval + seeded line-level yield injection via sys.monitoring) with a sequential reference oracle and registry/cache invariants",
+    },
 }
